@@ -22,11 +22,12 @@ LEVEL_TEXT = ("All sequences up to length 4 (quick) / 6 (thorough) over a 12-ope
 LEVEL_NOTE = "Trusts numpy and icontract; the record-level clause (pid strictly increasing, pid[k] >= k in every output record) is asserted by the shared output checker in the end-to-end checks (C06, C09, C14 ...)."
 RULE = ("case = all operation sequences of the given length with a fixed two-operation prefix (exhaustive family) or a batch of random sequences; "
         "non-trivial sequence: contains an append, a kill and a compactify followed by another append (the pid-reuse / misalignment pattern); distinct by sequence.")
-MANDATORY = ["e2e_warm_start_from_a_file_whose_last_record_is_empty", "e2e_warm_start_with_a_new_defaulted_particle_variable", "e2e_warm_start_without_particle_variables", "in_place_update_after_assignment_from_another_variable", "append_after_compactify", "kill_then_compactify", "invariant_evaluations", "shadow_comparisons", "particle_variable_follow_pid", "e2e_split_files_checked", "e2e_particle_values_compared"]
+MANDATORY = ["rejected_append_then_state_compared", "compactify_with_living_inactive_particles", "compactify_of_few_dead_among_more_than_20", "e2e_warm_start_from_a_file_whose_last_record_is_empty", "e2e_warm_start_with_a_new_defaulted_particle_variable", "e2e_warm_start_without_particle_variables", "in_place_update_after_assignment_from_another_variable", "append_after_compactify", "kill_then_compactify", "invariant_evaluations", "shadow_comparisons", "particle_variable_follow_pid", "e2e_split_files_checked", "e2e_particle_values_compared"]
 ASSUMPTIONS = ["single-threaded use of State (ladim has no threads)"]
 EXHAUSTIVE = {"quick": True, "thorough": True}
 TIMEOUT = {"quick": 600, "thorough": 3000}
 
+OPS_MORE = ["deact_mid", "bad_app", "app_big"]  # used by the random sequences only (the exhaustive alphabet stays as it was)
 OPS = ["app_scalar", "app_array", "app_bcast", "app_default", "kill_first", "kill_last", "kill_mid", "compact", "set_inst", "set_part", "app_len1", "app_empty", "set_alias"]
 
 
@@ -140,6 +141,10 @@ def _apply(op: str, s, sh: Shadow, ctr: list[int], rng) -> None:
             xs = [base + 0.01 * i for i in range(3)]
             s.append(X=np.array(xs), Y=base, Z=0.0, age=1.5, w=base, tag=ctr[0])
             sh.append([dict(X=x, Y=base, Z=0.0, age=1.5, w=base, tag=ctr[0]) for x in xs])
+        elif op == "app_big":  # a release of 30 particles: afterwards a single death is a small fraction of the state
+            xs = [base + 0.001 * i for i in range(30)]
+            s.append(X=np.array(xs), Y=base, Z=1.0, age=0.5, w=base, tag=ctr[0])
+            sh.append([dict(X=x, Y=base, Z=1.0, age=0.5, w=base, tag=ctr[0]) for x in xs])
         elif op == "app_empty":  # a release that yields no particle (all mult = 0): zero-length arrays
             ctr[0] -= 1
             e = np.array([], float)
@@ -162,6 +167,17 @@ def _apply(op: str, s, sh: Shadow, ctr: list[int], rng) -> None:
         else:
             s.alive[k] = False  # in-place, as Tracker.update does
         sh.inst[sh.present[k]]["alive"] = False
+    elif op == "deact_mid":  # a living particle is switched off (alive, inactive): it stays in the state
+        if n == 0:
+            return
+        k = n // 2 if rng is None else int(rng.integers(n))
+        s.active[k] = False
+        sh.inst[sh.present[k]]["active"] = False
+    elif op == "bad_app":  # a release whose arrays do not fit together is refused - and leaves the state as it was
+        try:
+            s.append(X=np.array([1.0, 2.0, 3.0]), Y=np.array([1.0, 2.0]), Z=0.0, age=1.0, w=1.0, tag=1)
+        except Exception:  # noqa: BLE001
+            pass
     elif op == "compact":
         s.compactify()
         sh.compact()
@@ -235,6 +251,12 @@ def _run_seq(st, seq: list[str], rng, cnt: dict, sit: dict) -> dict | None:
             aliased = aliased and op == "set_alias"
         if op.startswith("kill") and len(sh.present):
             killed = True
+        if op == "bad_app":
+            sit["rejected_append_then_state_compared"] = sit.get("rejected_append_then_state_compared", 0) + 1
+        if op == "compact" and killed and any(sh.inst[p_]["alive"] and not sh.inst[p_]["active"] for p_ in sh.present):
+            sit["compactify_with_living_inactive_particles"] = sit.get("compactify_with_living_inactive_particles", 0) + 1
+        if op == "compact" and killed and len(sh.present) >= 21:
+            sit["compactify_of_few_dead_among_more_than_20"] = sit.get("compactify_of_few_dead_among_more_than_20", 0) + 1
         if op == "compact" and killed:
             seen_compact_after_kill = True
             sit["kill_then_compactify"] = sit.get("kill_then_compactify", 0) + 1
@@ -262,6 +284,8 @@ def run_e2e(case: dict[str, Any], wd: Path) -> dict[str, Any]:
     if case["idx"] % 6 == 2:
         # everybody dies before the restart record, which is therefore empty; a later release must still get new identifiers and nobody comes back
         p.update(pvars=True, warm=True, layout="sparse", numrec=3, releases=[[0, 3], [ns - 2, 2]], kills={1: "all"})
+    if case["idx"] % 2 == 0 and not p.get("warm"):
+        p["deactivate"] = {1: [1], 2: [0]}  # switched off by the IBM, alive: they stay in the state and in the records while others die around them
     out = outscn.run_and_check(p, wd)
     V = list(out["V"])
     if p.get("warm") and out["cnt"].get("warm_runs"):
@@ -316,7 +340,9 @@ def run_case(case: dict[str, Any], wd: Path) -> dict[str, Any]:
         for _ in range(case["n"]):
             L = int(rng.integers(case["minlen"], case["maxlen"] + 1))
             p = np.array([2, 2, 1, 1, 2, 2, 3, 3, 1, 1, 1, 1, 1], float)
-            seq = [OPS[i] for i in rng.choice(len(OPS), size=L, p=p / p.sum())]
+            allops = OPS + OPS_MORE
+            p = np.concatenate([p, [2.0, 1.0, 1.0]])
+            seq = [allops[i] for i in rng.choice(len(allops), size=L, p=p / p.sum())]
             nseq += 1
             before = sit.get("append_after_compactify", 0)
             bad = _run_seq(st, seq, rng, cnt, sit)
